@@ -1116,6 +1116,36 @@ theorem C16_both_cells_filled :
       (Cells.cellEnv (fun _ => none) (fun _ _ => none)) .asset ["d", "p", "0.00", "0.00"] = .ok ⟨true, 0, 2⟩ := by
   decide +kernel
 
+/-- **statements that fill both cells**: when both the credit and the debit cell hold a number and one of the two is zero, the row
+moves the account by `credit − debit` - a zero in either cell changes nothing (after fix F41; before it this failed for a zero in the
+credit cell). -/
+theorem C16_both_cells_net (parse : String → Option Dec) (credit debit : String) (a c d : Dec)
+    (hc : parse credit = some c) (hd : parse debit = some d) (hce : credit.isEmpty = false) (hde : debit.isEmpty = false)
+    (hz : c.isZero = true ∨ d.isZero = true) (h : CreditDebitRule parse credit debit a) :
+    a.toRat = c.toRat - d.toRat := by
+  have zero_toRat : ∀ x : Dec, x.isZero = true → x.toRat = 0 := by
+    intro x hx
+    have hm : x.mant = 0 := by simpa [Dec.isZero] using hx
+    simp [Dec.toRat, hm, Rat.div_def]
+  rcases h with ⟨_, hp, hnz⟩ | ⟨_, hcz, d', hp, rfl⟩
+  · rw [hc] at hp
+    injection hp with hp
+    subst hp
+    rcases hnz with hnz | hnz
+    · rcases hz with hz | hz
+      · rw [hz] at hnz; cases hnz
+      · rw [zero_toRat d hz]; grind
+    · rw [hde] at hnz; cases hnz
+  · rw [hd] at hp
+    injection hp with hp
+    subst hp
+    rcases hcz with hcz | ⟨_, c0, hpc, hz0⟩
+    · rw [hce] at hcz; cases hcz
+    · rw [hc] at hpc
+      injection hpc with hpc
+      subst hpc
+      rw [Dec.toRat_negate, zero_toRat c hz0]; grind
+
 open Cells in
 /-- **C16_template_accepts_exactly**: `Template::from_str` accepts exactly the sequences of maximal non-empty brace-free
 literal runs and `{key}` references with a valid key (positive column number within `usize`, or one of `date`, `payee`,
